@@ -1512,18 +1512,40 @@ struct Replay {
     step_desc: String,
     /// number of upstream expectations that were matched against real messages
     matched: usize,
+    /// the tester walks its clients in hash-map order for the implicit final steps: any order
+    /// must do; `false` = creation order, `true` = reverse creation order
+    reverse_final: bool,
+}
+
+/// How a scenario is replayed (everything the tester leaves open or takes from its command line).
+#[derive(Clone, Copy, Debug)]
+pub struct Variant {
+    /// `conformance-tester run -p <version>`: version of `connect` steps that do not name one
+    pub version: ProtocolVersion,
+    /// order of the implicit final sync / shutdown steps
+    pub reverse_final: bool,
+    /// simulator schedule
+    pub sched_seed: u64,
+    pub policy: Policy,
+}
+
+impl Default for Variant {
+    fn default() -> Self {
+        Variant { version: ProtocolVersion::V1_20, reverse_final: false, sched_seed: 1, policy: Policy::Random }
+    }
 }
 
 impl Replay {
-    fn new(scenario: &str, ctx_version: ProtocolVersion) -> Self {
+    fn new(scenario: &str, v: Variant) -> Self {
         Replay {
             scenario: scenario.to_string(),
-            world: World::new(1, Policy::Random),
+            world: World::new(v.sched_seed, v.policy),
             clients: vec![],
             vars: Vars::default(),
-            ctx_version,
+            ctx_version: v.version,
             step_desc: String::new(),
             matched: 0,
+            reverse_final: v.reverse_final,
         }
     }
 
@@ -1706,6 +1728,7 @@ impl Replay {
             if self.vars.matches(exp, &gj)? {
                 self.vars.bind(exp, &gj)?;
                 self.matched += 1;
+                self.world.history.push(format!("   expectation met on `{}` (discarding until): {}", client, J::Object(exp.clone())));
                 return Ok(());
             }
             self.world.history.push(format!("   `{}` discards {}", client, J::Object(gj)));
@@ -1972,7 +1995,10 @@ impl Replay {
             self.world.history.push(format!("-- step {}: {}", i + 1, J::Object(s.clone())));
             self.step(s)?;
         }
-        let names: Vec<(String, bool, bool)> = self.clients.iter().map(|c| (c.name.clone(), c.sync, c.shutdown)).collect();
+        let mut names: Vec<(String, bool, bool)> = self.clients.iter().map(|c| (c.name.clone(), c.sync, c.shutdown)).collect();
+        if self.reverse_final {
+            names.reverse();
+        }
         for (name, sync, _) in &names {
             if *sync {
                 self.step_desc = format!("scenario `{}`: implicit final synchronization of client `{}`", self.scenario, name);
@@ -2035,12 +2061,12 @@ fn load(index: usize) -> Result<(String, Obj), String> {
     }
 }
 
-fn replay(name: &str, test: &Obj, ctx_version: ProtocolVersion) -> Report {
+fn replay(name: &str, test: &Obj, variant: Variant) -> Report {
     let steps = match test.get("steps") {
         Some(J::Array(a)) => a.clone(),
         _ => vec![],
     };
-    let mut r = Replay::new(name, ctx_version);
+    let mut r = Replay::new(name, variant);
     let res = r.run(&steps);
     let pass = |unsupported: bool| {
         let mut classes = vec!["conformance"];
@@ -2066,6 +2092,11 @@ pub fn run_scenario_report(index: usize) -> Report {
 /// Replays scenario `index` the way `conformance-tester run -p <version>` would: `version` is the
 /// version of every `connect` step that does not name one.
 pub fn run_scenario_report_at(index: usize, version: ProtocolVersion) -> Report {
+    run_scenario_variant(index, Variant { version, ..Variant::default() })
+}
+
+/// Replays scenario `index` under an explicit variant.
+pub fn run_scenario_variant(index: usize, variant: Variant) -> Report {
     let (name, test) = match load(index) {
         Ok(x) => x,
         Err(e) => {
@@ -2073,7 +2104,7 @@ pub fn run_scenario_report_at(index: usize, version: ProtocolVersion) -> Report 
         }
     };
     let n2 = name.clone();
-    match vcommon::with_det_seed(1, 8 << 20, move || replay(&n2, &test, version)) {
+    match vcommon::with_det_seed(1, 8 << 20, move || replay(&n2, &test, variant)) {
         Ok(r) => r,
         Err(_) => {
             let pn = vcommon::last_panic_any_thread();
